@@ -20,10 +20,11 @@ from ..stategraph import bfs, fingerprint
 PROPERTY = 'C02'
 LEVEL = 'model_checking'
 LEVEL_TEXT = ("Explicit-state search over the real sender blocks (SBlock.set_output, Input, FuncBlock, "
-              "Not): every value of a 12-element alphabet with equal-but-not-identical members is "
+              "Not, Counter, ValuePoll): every value of a 13-element alphabet with equal-but-not-identical members and NaN is "
               "assigned in every reachable output state for ~800 fan-out/filter configurations; the "
               "graph closes, so the chaining previous(k+1)==value(k) and the delivery rules hold for "
-              "assignment sequences of any length over the alphabet.")
+              "assignment sequences of any length over the alphabet; plus one Event object shared by "
+              "two sender blocks (BFS over assignments of either sender).")
 LEVEL_NOTE = ("Filters used are stateless; fan-out 0..3 x 0..3, five filter patterns, three container "
               "styles, shared/distinct destinations; canonical state = output (type+repr) + simple "
               "instance attributes of the sender.")
@@ -34,7 +35,8 @@ RULE = ("config = (sender kind, #on_output, #on_every_output, container style, f
 ASSUMPTIONS = ["event filters in the configurations are stateless and deterministic"]
 
 UNDEF = edzed.UNDEF
-V = [0, False, 0.0, 1, True, 1.0, 2, None, (), (1,), 'a', [1]]
+NAN = float('nan')      # compares unequal to itself: every assignment of it is a change
+V = [0, False, 0.0, 1, True, 1.0, 2, None, (), (1,), 'a', [1], NAN]
 FILTERS = ['none', 'pass', 'edit', 'reject', 'mut', 'empty', 'strip']
 
 
@@ -67,6 +69,12 @@ def configs(tier):
                             continue
                         out.append(dict(sender=sender, k=k, m=0, style=style, pat=pat,
                                         shared=shared))
+    # one Event object configured on two sender blocks: 'source' and 'previous' are the sender's
+    for pair in (('sb', 'sb'), ('input', 'counter'), ('input', 'not')):
+        for k, m in ((1, 0), (0, 1), (1, 1), (2, 1)):
+            for pat in (-1, 1, 2):
+                out.append(dict(kind='shared-event', pair=pair, k=k, m=m, pat=pat, sender=pair[0],
+                                style='list', shared=1))
     return out
 
 
@@ -241,6 +249,8 @@ def run_history(cfg, hist):
             for pos, vi in enumerate(hist):
                 v = copy.copy(V[vi])
                 exp, newref = expected(cfg, ref, v, 'snd')
+                if sender == 'func' and pos > 0 and vi == hist[pos - 1]:
+                    exp, newref = [], ref       # the index did not change: no re-evaluation at all
                 n0 = len(log)
                 if pos == 0:
                     got_sync = got = deliveries(0)
@@ -278,7 +288,7 @@ def run_history(cfg, hist):
                         kind = 'data'
                     info['viol'].append((kind, f"assign {V[vi]!r} in state {ref!r}: delivered {got!r}, expected {exp!r}"))
                 outv = blk.output
-                if not (type(outv) is type(newref) and outv == newref):
+                if not (type(outv) is type(newref) and (outv == newref or repr(outv) == repr(newref) == 'nan')):
                     info['viol'].append(('output-value', f"assign {V[vi]!r} in state {ref!r}: output {outv!r}, expected {newref!r}"))
                 if not sim.circuit.is_ready():
                     info['viol'].append(('simulation-stopped', repr(sim.circuit.error)))
@@ -293,8 +303,110 @@ def run_history(cfg, hist):
     return (None if info.get('dead') else info['canon']), info
 
 
+SV = [0, 1, True, 'a']
+
+
+def run_shared(cfg, hist):
+    """
+    Two sender blocks configured with the very same Event objects.  hist: tuple of
+    (sender index, index into SV); both senders start with SV[0].
+    """
+    info = {'viol': [], 'steps': []}
+    pair, k, m = cfg['pair'], cfg['k'], cfg['m']
+    log = []
+    with Sim() as sim:
+        dest = Probe('p', log=log)
+        evs = []
+        for i in range(k + m):
+            etype = f"o{i}" if i < k else f"e{i - k}"
+            f = make_filter(filt_kind(cfg, i))
+            evs.append(edzed.Event(dest, etype, efilter=f) if f is not None else edzed.Event(dest, etype))
+        blocks, exts, cfgs = [], [], []
+        for idx, kind in enumerate(pair):
+            name = f"snd{idx}"
+            kw = {}
+            if k:
+                kw['on_output'] = evs[:k]
+            if m and kind in SSENDERS:
+                kw['on_every_output'] = evs[k:]
+            if kind == 'sb':
+                blk = Setter(name, first=SV[0], **kw)
+                ext = edzed.ExtEvent(blk, 'set')
+            elif kind == 'input':
+                blk = edzed.Input(name, initdef=SV[0], **kw)
+                ext = edzed.ExtEvent(blk, 'put')
+            elif kind == 'counter':
+                blk = edzed.Counter(name, initdef=SV[0], **kw)
+                ext = edzed.ExtEvent(blk, 'put')
+            else:       # 'not': follows the first sender
+                blk = edzed.Not(name, **kw).connect(blocks[0])
+                ext = None
+            blocks.append(blk)
+            exts.append(ext)
+            cfgs.append(dict(cfg, sender=kind))
+
+        def deliveries(n0):
+            return [(e, canon_data(d)) for (_t, _n, e, d) in log[n0:]]
+
+        async def driver():
+            task = asyncio.create_task(sim.circuit.run_forever())
+            try:
+                await sim.circuit.wait_init()
+            except Exception as err:    # pylint: disable=broad-except
+                info['viol'].append(('start-failed', repr(err)))
+                info['dead'] = True
+                return
+            await sim.loop.idle()
+            # start-up: every sender announced its first output under its own name
+            refs = [UNDEF, UNDEF]
+            exp0 = []
+            for idx in (0, 1):
+                e, refs[idx] = expected(cfgs[idx], UNDEF, SV[0], f"snd{idx}")
+                exp0 += e
+            if sorted(deliveries(0)) != sorted(exp0):
+                info['viol'].append(('shared-event-data', f"start-up: delivered {deliveries(0)!r}, expected {exp0!r}"))
+            for (idx, vi) in hist:
+                v = SV[vi]
+                n0 = len(log)
+                if exts[idx] is None:
+                    continue
+                exp, refs[idx] = expected(cfgs[idx], refs[idx], v, f"snd{idx}")
+                if pair[1] == 'not' and idx == 0:
+                    e2, refs[1] = expected(cfgs[1], refs[1], v, "snd1")
+                    exp = exp + e2
+                exts[idx].send(v)
+                await sim.loop.idle()
+                got = deliveries(n0)
+                info['steps'].append((idx, repr(v), [e for e, _ in got]))
+                if got != exp:
+                    info['viol'].append(('shared-event-data',
+                                         f"snd{idx} assigns {v!r}: delivered {got!r}, expected {exp!r}"))
+                if not sim.circuit.is_ready():
+                    info['viol'].append(('simulation-stopped', repr(sim.circuit.error)))
+                    info['dead'] = True
+                    break
+            info['canon'] = ('shared', tuple((type(b.output).__name__, repr(b.output)) for b in blocks))
+            await stop(sim.circuit)
+            del task
+        sim.run(driver())
+    return (None if info.get('dead') else info['canon']), info
+
+
 def run_config(cfg):
     acc = Acc()
+    if cfg.get('kind') == 'shared-event':
+        def on_step2(hist, hc, sym, canon, info):
+            for sig, msg in info['viol']:
+                acc.violation(f"C02:{sig}:{'+'.join(cfg['pair'])}", msg, cfg=cfg,
+                              detail={'history': list(hist), 'steps': info['steps']})
+            acc.outcome((tuple(sorted((k, repr(v)) for k, v in cfg.items())), hc, sym, repr(info['steps'][-1:])))
+        alphabet = [(i, vi) for i in range(2 if cfg['pair'][1] != 'not' else 1) for vi in range(len(SV))]
+        res = bfs(lambda h: run_shared(cfg, h), alphabet, acc, max_depth=4, on_step=on_step2)
+        acc.count('graphs_closed' if res['closed'] else 'graphs_open')
+        if not res['closed'] and not acc.violations:
+            acc.violation("C02:graph-did-not-close:shared-event", str(res), cfg=cfg)
+        acc.sample({'cfg': cfg, 'result': res}, limit=2)
+        return acc
 
     def on_step(hist, hc, sym, canon, info):
         for sig, msg in info['viol']:
